@@ -249,6 +249,15 @@ func (c *Ctx) safeEncoded(e ast.Expr, defs map[types.Object][]ast.Expr, depth in
 				if id, ok := unparen(se.X).(*ast.Ident); ok && bufOK(c.objOf(id)) {
 					return true, ""
 				}
+				// a buffer kept in a field of a small writer struct: safe iff every write to that field's buffer
+				// anywhere in the encoder-reachable code is safe
+				if fv := c.fieldOfSel(se.X); fv != nil {
+					if why, bad := c.fieldBufferBad()[fv]; !bad {
+						return true, ""
+					} else {
+						return false, why
+					}
+				}
 			}
 			return false, "buffer holds raw text"
 		}
@@ -832,10 +841,23 @@ func ruleFragmentDisjoint(c *Ctx) {
 		} else if len(helperFills) > 0 && helperGenMap != nil {
 			genMap, fillPos = helperGenMap, helperPos
 		}
+		// the same facts gathered through the functions and methods the generic map is handed to
+		ev := c.schemaDecoderEvents()
+		viaEvents := false
+		if fillPos == token.NoPos && ev.found && len(ev.fills) > 0 {
+			viaEvents = true
+			fillPos = ev.fills[0].pos
+			for _, fl := range ev.fills {
+				if fl.pos < fillPos {
+					fillPos = fl.pos
+				}
+				helperFills = append(helperFills, extraFill{fl.fd, fl.as})
+			}
+		}
 		if fillPos == token.NoPos {
 			c.undecided(rule, "Schema.UnmarshalJSON:fill-loop", u.Pos(), "cannot find the loop that fills ExtraProps from the generic map")
 		} else {
-			delAll := false
+			delAll := viaEvents && ev.delTagged.IsValid() && ev.delTagged < fillPos
 			ast.Inspect(u.Body, func(n ast.Node) bool {
 				rs, ok := n.(*ast.RangeStmt)
 				if !ok || rs.Pos() > fillPos {
@@ -877,6 +899,13 @@ func ruleFragmentDisjoint(c *Ctx) {
 				}
 				return true
 			})
+			if viaEvents {
+				for k, p := range ev.delConst {
+					if p < fillPos {
+						handDeleted[k] = true
+					}
+				}
+			}
 			for _, k := range []string{"$ref", "$schema"} {
 				c.ob(rule, "Schema.UnmarshalJSON:deletes("+k+")", u.Pos(), handDeleted[k],
 					"the hand-coded member is not removed from the generic map before the rest is parked in ExtraProps: it is emitted twice (its own fragment and the ExtraProps fragment)")
@@ -1484,4 +1513,39 @@ func (c *Ctx) producerIsEncoder(fv ast.Expr, depth int) (bool, string) {
 		return true
 	})
 	return good && n > 0, why
+}
+
+// fieldBufferBad: struct fields holding a bytes.Buffer / strings.Builder that receive, somewhere in the code
+// reachable from an encoder, a write whose argument is not JSON-safe (with the reason). Computed once.
+func (c *Ctx) fieldBufferBad() map[*types.Var]string {
+	if c.fieldBufBad != nil {
+		return c.fieldBufBad
+	}
+	c.fieldBufBad = map[*types.Var]string{}
+	for _, fd := range c.reachableFrom("MarshalJSON") {
+		defs := c.localDefs(fd)
+		ast.Inspect(fd.Body, func(n ast.Node) bool {
+			call, ok := n.(*ast.CallExpr)
+			if !ok || len(call.Args) != 1 {
+				return true
+			}
+			r, name, pkg, isM := c.calleeMethod(call)
+			if !isM || !isBufferWrite(pkg, r, name) {
+				return true
+			}
+			se, ok := unparen(call.Fun).(*ast.SelectorExpr)
+			if !ok {
+				return true
+			}
+			fv := c.fieldOfSel(se.X)
+			if fv == nil {
+				return true
+			}
+			if good, why := c.safeEncoded(call.Args[0], defs, 0, func(types.Object) bool { return false }); !good {
+				c.fieldBufBad[fv] = why
+			}
+			return true
+		})
+	}
+	return c.fieldBufBad
 }
